@@ -85,8 +85,21 @@ Failing == IF ev.name = "Init" \/ ev.halt
            THEN (IF ev.halt THEN {"C13_NoHalt"} ELSE {})
            ELSE {c \in DOMAIN Clauses : ~Clauses[c]}
 
+(* Known finding H1 (F28): coins stranded in escrow by claims of contracts
+   whose recipient is the module account.  The discriminator is exact: the
+   line is attributed to H1 iff every failing clause among C04_Escrow /
+   C03_ExactlyOnce holds once gh.stranded is subtracted from the escrow
+   balance (resp. counted as released); any other discrepancy keeps the
+   specification's own reason and is a violation. *)
+H1Clauses == {"C04_Escrow", "C03_ExactlyOnce"}
+H1Only ==
+  /\ Failing \cap H1Clauses # {}
+  /\ ("C04_Escrow" \in Failing) => C04_Escrow_ModH1(st, gh)
+  /\ ("C03_ExactlyOnce" \in Failing) => C03_ExactlyOnce_ModH1(pre, ev, st, gh)
+Why == IF H1Only THEN "to_escrow" ELSE Apply(pre, ev).why
+
 (* Evaluated by TLC in every state; always TRUE, reports as a side effect *)
-Monitor == Failing = {} \/ PrintT(<<"CLAUSE-FAIL", l - 1, Failing, Apply(pre, ev).why>>)
+Monitor == Failing = {} \/ PrintT(<<"CLAUSE-FAIL", l - 1, Failing, Why>>)
 
 (* antecedent counters (vacuity) *)
 IsClaim == ev.name = "Claim"
@@ -104,7 +117,7 @@ ExNames ==
    "claim_after_refund", "claim_in_expiry_block", "claim_last_block", "claim_in_rej",
    "refund_plain", "refund_in", "refund_out", "refund_many", "refund_none_due",
    "window_reset", "window_accum", "limit_rej", "time_limit_rej", "params_update",
-   "limit_after_update", "asset_removed_inflight", "skip", "reject"}
+   "limit_after_update", "asset_removed_inflight", "skip", "reject", "claim_to_module"}
 
 Exercised ==
   {c \in ExNames :
@@ -154,6 +167,7 @@ Exercised ==
             ev.name = "UpdateParams" /\ ev.ok /\ \E i \in Ids(pre) :
                pre.htlc[i].state = "open" /\ pre.htlc[i].transfer
                /\ DOMAIN pre.htlc[i].amt \cap DOMAIN st.params = {}
+       [] c = "claim_to_module" -> LET P(x) == ~x.transfer /\ x.to = MOD IN ev.ok /\ ClaimOn(P)
        [] c = "skip" -> ev.name = "Skip"
        [] c = "reject" -> ev.name \in MsgEvents /\ ~ev.ok}
 Coverage == (ev.name = "Init" \/ Exercised = {}) \/ PrintT(<<"EXERCISED", Exercised>>)
